@@ -61,6 +61,9 @@ def mk_unit(be, tls, tier, table_ops=True):
     pick = lambda tu, fn: find_func(tu, 'impl_register_callback', 'rlbox::' + cls)
     insts.append(Inst('c12_%s_%s_register' % (be, tls), trig, trig_expr, cl, h, leaves=['dynamic_check'], prop=PROP, root_name='impl_register_callback', tier=tier,
                       pre=GH, post_protos=post, root_pick=pick, timeout=300,
+                      # the 64 trampolines are emitted because their addresses are taken; they are not called here (their bodies,
+                      # incl. the call through the stored function pointer, are verified by the trampoline instances)
+                      opts={'allow_unstubbed_indirect_calls': True},
                       note='compile_time_for<64> arrives as 64 straight-line lambda calls: no loop; the entry point returned is the N-th instantiation of callback_trampoline'))
 
     # ---- impl_unregister_callback (loop over the constant MAX_CALLBACKS)
@@ -70,10 +73,10 @@ def mk_unit(be, tls, tier, table_ops=True):
           ('slot_cleared', '__CPROVER_ensures(g_first < 64 ==> (%s == 0 && %s == 0))' % (K('g_first'), C('g_first'))),
           ('other_slots_unchanged', '__CPROVER_ensures(%s)' % unchanged_except()),
           ('frame', '__CPROVER_assigns(__CPROVER_object_whole($this))')]
-    lc = ('__CPROVER_assigns(i, __CPROVER_object_whole($this))\n'
-          '__CPROVER_loop_invariant(i <= 64 && i <= g_first)\n'
+    lc = ('__CPROVER_assigns($LV, __CPROVER_object_whole($this))\n'
+          '__CPROVER_loop_invariant($LV <= 64 && $LV <= g_first)\n'
           '__CPROVER_loop_invariant(%s)\n'
-          '__CPROVER_decreases(64 - i)' % conj(lambda j: '(%s == __CPROVER_loop_entry(%s) && %s == __CPROVER_loop_entry(%s))' % (K(j), K(j), C(j), C(j))))
+          '__CPROVER_decreases(64 - $LV)' % conj(lambda j: '(%s == __CPROVER_loop_entry(%s) && %s == __CPROVER_loop_entry(%s))' % (K(j), K(j), C(j), C(j))))
     h = '  struct %s be; unsigned long in_first; g_first = in_first; uintptr_t in_key;\n  $ROOT(&be, (void *)in_key);\n' % BS
     pick = lambda tu, fn: find_func(tu, 'impl_unregister_callback', 'rlbox::' + cls)
     insts.append(Inst('c12_%s_%s_unregister' % (be, tls), 'sandbox_callback<int (*)(long), %s>& c' % cls, 'c.unregister();', cl, h, leaves=['dynamic_check'], prop=PROP,
@@ -96,7 +99,7 @@ def mk_unit(be, tls, tier, table_ops=True):
         def pick(tu, fn, n=n):
             return find_func(tu, 'callback_trampoline', 'rlbox::' + cls, lambda f, rn: [c for c in inner(f) if c.get('kind') == 'TemplateArgument'][0].get('value') == n)
         insts.append(Inst('c12_%s_%s_trampoline_%d' % (be, tls, n), trig, trig_expr, cl, h, leaves=['dynamic_check'], prop=PROP, root_name='callback_trampoline', tier=tier,
-                          pre=TG + TSTUB, root_pick=pick, opts={'indirect_stubs': {'func': 'cb_target_stub'}}, extra_replace=['cb_target_stub']))
+                          pre=TG + TSTUB, root_pick=pick, opts={'indirect_stubs': {'*': 'cb_target_stub'}}, extra_replace=['cb_target_stub']))
 
     # ---- impl_get_executed_callback_sandbox_and_key
     PT = cs('std::pair<rlbox::%s *, void *>' % cls, 'P_')
@@ -123,7 +126,7 @@ def mk_unit(be, tls, tier, table_ops=True):
     pick = lambda tu, fn: find_func(tu, 'impl_invoke_with_func_ptr', 'rlbox::' + cls)
     insts.append(Inst('c12_%s_%s_invoke_saves_restores' % (be, tls), 'rlbox_sandbox<%s>& s, long a' % cls, 's.INTERNAL_invoke_with_func_ptr<int(long)>("f", (void*)0, a);', cl, h,
                       leaves=['dynamic_check'], prop=PROP, root_name='impl_invoke_with_func_ptr', tier=tier, pre=IG, post_protos=GSTUB, root_pick=pick,
-                      opts={'param_fn_stubs': {'func_ptr': 'guest_fn_stub'}}, extra_replace=['guest_fn_stub'],
+                      opts={'param_fn_stubs': {'*': 'guest_fn_stub'}}, extra_replace=['guest_fn_stub'],
                       note='scope_exit guard lowered by L-dtor: destructor call at the return; nested invocation = a non-null previous current sandbox'))
     if not table_ops:
         # register/unregister do not touch the per-thread record: TLS-independent, verified once per backend
@@ -167,7 +170,7 @@ def interceptor_unit(tier):
     pick = lambda tu, fn: find_func(tu, 'sandbox_callback_interceptor', 'rlbox::rlbox_sandbox<rlbox::vsbx>')
     it = Inst('c12_interceptor_int_long', 'rlbox_sandbox<vsbx>& s, tainted<int, vsbx> (*f)(rlbox_sandbox<vsbx>&, tainted<long, vsbx>)', 's.register_callback(f);', cl, h,
               leaves=['dynamic_check', ctx], prop=PROP, root_name='sandbox_callback_interceptor', tier=tier, pre=G, post_protos=post, root_pick=pick,
-              opts={'indirect_stubs': {'target_fn_ptr': 'app_cb_stub'}}, extra_replace=['app_cb_stub'],
+              opts={'indirect_stubs': {'*': 'app_cb_stub'}}, extra_replace=['app_cb_stub'],
               note='guest long is 32-bit under vsbx: the argument arrives as int and is widened; the int result is passed back unchanged')
     return Unit('C12_interceptor', [it])
 
